@@ -362,6 +362,26 @@ def do_op(k, name, a, b, text):
     elif name == "char_ret_null":
         v = simlib.charRetNull(a)
         res(k, "NONE" if v is None else v)
+    elif name == "item_add_all":
+        res(k, h[a].addAll(prepared(("iaa", b), lambda: [i for i in range(1, b + 1)])))
+    elif name == "bad_item_add_all":
+        try:
+            h[a].addAll(prepared(("biaa", b), lambda: [1, bad_value(1 + b % 5), 3]))
+            res(k, "NOERROR")
+        except BaseException as e:
+            res(k, "EXC", type(e).__name__)
+    elif name == "arr_sum_d":
+        res(k, simlib.arrSumD(prepared(("asd", a), lambda: [0.5 * i for i in range(1, a + 1)])))
+    elif name == "bad_arr_sum_d":
+        def mkd():
+            lst = [0.5 * i for i in range(1, a + 1)]
+            lst[b % len(lst)] = bad_value([0, 1, 3, 4, 5][b % 5])
+            return lst
+        try:
+            simlib.arrSumD(prepared(("basd", a, b), mkd))
+            res(k, "NOERROR")
+        except BaseException as e:
+            res(k, "EXC", type(e).__name__)
     elif name == "item_combine":
         res(k, h[a].combine(h[b]))
     elif name == "vec_dot":
